@@ -3,7 +3,7 @@
 import re
 
 from ..core import RuleResult
-from ..ir import access_paths, walk, strip
+from ..ir import access_paths, walk, strip, value_walk, inline
 from .. import anchors
 from ..flow import Origins
 
@@ -58,10 +58,14 @@ def group_of(f, root_body):
 
 
 def is_outer_callback(f, b, t, root_key):
-    """does the callee object of this callback call come from a parameter of the root function?"""
+    """does the callee object of this callback call come from a parameter of the root function (or of the helper function
+    this call sits in, which receives the caller's callback)?"""
     e = b.expr_of_operand(t['args'][0])
     roots = strip(e, through_calls=THROUGH)
-    return bool(roots) and all(r[0] == 'arg' and r[3] == root_key for r in roots)
+    own_root = b.d.get('root') or b.path
+    hb = f.body(own_root)
+    helper_ok = hb is not None and hb.d['kind'] != 'Closure' and own_root != root_key and not closure_kind_streams(f, hb)
+    return bool(roots) and all(r[0] == 'arg' and (r[3] == root_key or (helper_ok and r[3] == own_root)) for r in roots)
 
 
 def composites(f):
@@ -77,8 +81,30 @@ def composites(f):
                       for m in members for _, s in m.points())
         inner = [m for m in members if m.d['kind'] == 'Closure' and closure_kind(m)]
         if has_agg and inner and f.body(root) is not None:
-            out.append((f.body(root), members, inner))
+            # crate-local helper functions the composite calls (depth 2) belong to its analysis scope
+            helpers, frontier = [], list(members)
+            for _ in range(2):
+                nxt = []
+                for m in frontier:
+                    for pt, t in m.calls():
+                        c = t.get('callee')
+                        hb = f.body((c.get('resolved') or c['path'])) if c else None
+                        if hb is not None and hb.d['kind'] != 'Closure' and hb not in helpers and hb not in members \
+                                and not closure_kind_streams(f, hb):
+                            helpers.append(hb)
+                            nxt += group_of(f, hb)
+                frontier = nxt
+            hm = []
+            for hb in helpers:
+                hm += group_of(f, hb)
+            out.append((f.body(root), members + hm, inner))
     return out, ol
+
+
+def closure_kind_streams(f, hb):
+    """is this function itself a stream implementation (takes the three callbacks)?  Those are children, not helpers."""
+    tys = [hb.local_ty(i) for i in range(1, hb.arg_count + 1)]
+    return sum(1 for t in tys if 'dyn' in t and 'FnMut' in t) >= 3
 
 
 def dedup_inserts(b):
@@ -263,7 +289,7 @@ def rule_ident(ctx):
     f = ctx.facts()
     r = RuleResult('IDENT', 'OriginalSource leaves emit identity mappings (original line/column are the very values reported as '
                             'generated line/column, source index 0, no name) and announce exactly (index 0, its name, its own text)')
-    r.floor = 3
+    r.floor = 2
     osrc = anchors.adt_by_name(f, 'OriginalSource')
     st = anchors.trait_path(f, 'StreamChunks')
     ol = anchors.adt_by_name(f, 'OriginalLocation')['path']
@@ -276,7 +302,17 @@ def rule_ident(ctx):
               b.d.get('impl_trait') == st]
     if not bodies:
         raise anchors.AnchorMissing('StreamChunks impl of OriginalSource')
-    for b in bodies:
+    # helper functions of the crate that build the Mapping for this stream are part of it
+    helpers = []
+    for b in list(bodies):
+        for pt, t in b.calls():
+            c = t.get('callee')
+            hb = f.body(c.get('resolved') or c['path']) if c else None
+            if hb is not None and hb.d['kind'] != 'Closure' and hb not in helpers and hb not in bodies and \
+                    'Mapping' in hb.d.get('sig', '').split('->')[-1]:
+                helpers.append(hb)
+    scan = bodies + [m for hb in helpers for m in group_of(f, hb)]
+    for b in scan:
         for pt, s in b.points():
             if not (s['k'] == 'assign' and s['r']['k'] == 'agg' and s['r'].get('path') == mp):
                 continue
@@ -365,6 +401,41 @@ def map_announcers(f):
     return out, sm
 
 
+def stream_variants(f):
+    """functions with a &SourceMap parameter that announce its sources directly or through a crate-local helper:
+    [(body, [announcement points], announces_names: bool)]"""
+    direct, sm = map_announcers(f)
+    dkeys = {b.key: b for b, _, _ in direct}
+    out = []
+    for b in f.body_list:
+        if b.promoted is not None or b.d['kind'] == 'Closure':
+            continue
+        pts, names = [], False
+        for pt, t, kind, ops in callback_calls(b):
+            if kind == 'source':
+                pts.append(pt)
+            if kind == 'name':
+                names = True
+                pts.append(pt)
+        for pt, t in b.calls():
+            c = t.get('callee')
+            hb = f.body(c.get('resolved') or c['path']) if c else None
+            if hb is None or hb.d['kind'] == 'Closure' or hb is b or closure_kind_streams(f, hb):
+                continue
+            kinds = {k for m in group_of(f, hb) for _, _, k, _ in callback_calls(m)}
+            if kinds and kinds <= {'source', 'name'}:
+                pts.append(pt)
+                if 'name' in kinds:
+                    names = True
+        has_map_param = any(b.locals[i].get('adt') == sm and b.local_ty(i).startswith('&') for i in range(1, b.arg_count + 1))
+        if pts and has_map_param and (b.key in dkeys or any(True for _ in [0])):
+            # only functions that also deliver chunks (directly or in closures) are streaming variants
+            delivers = any(k == 'chunk' for m in group_of(f, b) for _, _, k, _ in callback_calls(m))
+            if delivers:
+                out.append((b, pts, names))
+    return out, sm
+
+
 def rule_root(ctx):
     f = ctx.facts()
     r = RuleResult('ROOT', 'every streaming variant that announces the sources of a map applies sourceRoot, announces the enumeration '
@@ -422,17 +493,17 @@ def rule_eager(ctx):
                             'by the completed announcement loop(s); a variant that never announces names overwrites the name index with '
                             'None before every emission')
     r.floor = 3
-    ann, sm = map_announcers(f)
+    variants, sm = stream_variants(f)
     osrc = anchors.adt_by_name(f, 'OriginalSource')['path']
     st = anchors.trait_path(f, 'StreamChunks')
     extra = [b for b in f.body_list if b.promoted is None and b.d['kind'] != 'Closure' and b.d.get('impl_adt') == osrc
              and b.d.get('impl_trait') == st]
-    targets = [(b, [(pt, t, ops) for pt, t, kind, ops in callback_calls(b) if kind == 'source']) for b in extra] + \
-              [(b, cbs) for b, _, cbs in ann]
-    for b, src_cbs in targets:
+    targets = [(b, [(pt, None, None) for pt, t, kind, ops in callback_calls(b) if kind == 'source'], False) for b in extra] + \
+              [(b, [(pt, None, None) for pt in pts], names) for b, pts, names in variants]
+    for b, src_cbs, announces_names in targets:
         members = group_of(f, b)
         loops_ = _loops(b)
-        name_cbs = [(pt, t) for pt, t, kind, ops in callback_calls(b) if kind == 'name']
+        name_cbs = [(None, None)] if announces_names else []
         # delivering points in the parent: direct chunk callback calls + creation points of closures that call it
         deliver = [(pt, t['s']) for pt, t, kind, ops in callback_calls(b) if kind == 'chunk']
         delivering_closures = [m for m in members if m is not b and any(k == 'chunk' for _, _, k, _ in callback_calls(m))]
@@ -441,7 +512,7 @@ def rule_eager(ctx):
                     any(s['r'].get('path') == m.path for m in delivering_closures):
                 deliver.append((pt, s['s']))
         problems = []
-        for apt, at, _ in src_cbs + [(p, t, None) for p, t in name_cbs]:
+        for apt, at, _ in src_cbs:
             inloop = [(h, blk) for h, blk in loops_ if apt[0] in blk]
             for dpt, dsite in deliver:
                 if inloop:
@@ -451,7 +522,7 @@ def rule_eager(ctx):
                 elif not b.dominates(apt, dpt):
                     problems.append('delivery at %s is not dominated by the announcement' % dsite)
         ok = not problems
-        r.site('%s: %d announcement sites complete before %d delivery points' % (b.path, len(src_cbs) + len(name_cbs), len(deliver)),
+        r.site('%s: %d announcement sites complete before %d delivery points' % (b.path, len(src_cbs), len(deliver)),
                b.span(), 'ok' if ok else 'violation')
         if not ok:
             r.violation('%s:order' % b.path, b.span(), b.path, 'a chunk can be delivered before its source/name index is announced: ' + problems[0])
@@ -461,7 +532,7 @@ def rule_eager(ctx):
                 for pt, t, kind, ops in callback_calls(m):
                     if kind != 'chunk' or not ops:
                         continue
-                    me = ops[1]
+                    me = inline(f, ops[1], depth=2)
                     safe = False
                     lits = [x for x in strip(me, through_calls=set()) if x[0] == 'agg' and x[2] and x[2].endswith('::Mapping')]
                     if lits:
@@ -637,12 +708,10 @@ def rule_sticky(ctx):
         for m, pt, t in tests:
             true_t = t['otherwise']
             for cpt, ct, kind, ops in callback_calls(m):
-                if kind == 'chunk' and ops and (true_t == cpt[0] or true_t in m.dom().get(cpt[0], set())):
-                    for x in strip(ops[1], through_calls=set()):
-                        if x[0] == 'agg' and x[2] and x[2].endswith('::Mapping'):
-                            orig = dict(zip(x[4], x[5]))['original']
-                            if orig[0] == 'agg' and orig[3] == 'None' and cell not in flags:
-                                flags.append(cell)
+                if kind == 'chunk' and (true_t == cpt[0] or true_t in m.dom().get(cpt[0], set())):
+                    # a user-named boolean that is assigned in several places and guards a chunk emission: a pending flag
+                    if root.local_name(cell) and cell not in flags:
+                        flags.append(cell)
     if not flags:
         raise anchors.AnchorMissing('no pending-close flag found in ConcatSource::stream_chunks')
     for cell in flags:
@@ -768,18 +837,25 @@ def _reaches_test_first(m, root, pt):
 
 # ---------------------------------------------------------------------------------- FIRST-MAPPED (C08)
 
-def _original_some_edge(m, pt, mapping_param=2):
-    """is pt dominated by an edge that establishes `mapping.original` is Some?"""
+def _mapping_roots(m, e, field, mp):
+    """root expressions of the Mapping object(s) whose `field` the expression reads"""
+    out = set()
+    for x in walk(e):
+        if x[0] == 'field' and x[2] == field and x[3] == mp:
+            for r_ in strip(x[1], through_calls={'deref', 'deref_mut', 'as_ref', 'as_mut', 'borrow', 'borrow_mut'}):
+                out.add(r_)
+    return out
+
+
+def _original_some_edge(m, pt, roots, mp):
+    """is pt dominated by an edge that establishes that `original` of the same Mapping object is Some?"""
     dom = m.dom().get(pt[0], set())
     for d in dom:
         t = m.term(d)
         if t['k'] != 'switch' or t['d']['k'] not in ('copy', 'move'):
             continue
         e = m.expr_of_operand(t['d'])
-        # the tested value must derive from the `original` field of the closure's Mapping parameter
-        derives = any(x[0] == 'field' and x[2] == 'original' and any(y[0] == 'arg' and y[1] == mapping_param for y in walk(x[1]))
-                      for x in walk(e))
-        if not derives:
+        if not (_mapping_roots(m, e, 'original', mp) & roots):
             continue
         zero_t = [x[1] for x in t['targets'] if x[0] == 0]
         one_t = [x[1] for x in t['targets'] if x[0] == 1]
@@ -804,27 +880,32 @@ def rule_first_mapped(ctx):
     r = RuleResult('FIRST-MAPPED', 'the line-only variants keep each line\'s first *mapped* segment: the per-line cursor they advance from a '
                                    'segment\'s generated line is advanced only for segments that have an original location')
     r.floor = 1
-    ann, sm = map_announcers(f)
-    for b, params, src_cbs in ann:
-        if any(kind == 'name' for _, _, kind, _ in callback_calls(b)):
-            continue  # column variants
+    mp = anchors.adt_by_name(f, 'Mapping')['path']
+    variants, sm = stream_variants(f)
+    for b, pts, names in variants:
+        if names:
+            continue  # column variants announce names
         for m in group_of(f, b):
-            if m.d['kind'] != 'Closure' or m.arg_count < 2 or 'Mapping' not in m.local_ty(2):
-                continue
             for pt, s in m.points():
-                if s['k'] != 'assign' or not s['p']['pr']:
+                if s['k'] != 'assign' or s['r']['k'] != 'use':
                     continue
-                # write through a by-ref upvar of integer type
-                if 'u32' not in s['p']['ty'] and 'usize' not in s['p']['ty']:
+                tty = s['p']['ty']
+                if tty not in ('u32', 'usize', 'u64', 'i64'):
                     continue
-                e = m.expr_of_operand(s['r']['o']) if s['r']['k'] == 'use' else None
-                if e is None:
+                # target: a counter that is not itself part of a Mapping (a local of the function or a captured cell)
+                if any(isinstance(x, dict) and x.get('o') == mp for x in s['p']['pr']):
                     continue
-                from_line = any(x[0] == 'field' and x[2] == 'generated_line' and any(y[0] == 'arg' and y[1] == 2 for y in walk(x[1]))
-                                for x in walk(e))
-                if not from_line or s['p']['l'] == 2:
+                # only user variables: a named local, or a write through a captured reference
+                if not s['p']['pr']:
+                    if not m.local_name(s['p']['l']):
+                        continue
+                elif s['p']['pr'] != ['*']:
                     continue
-                ok = _original_some_edge(m, pt)
+                e = m.expr_of_operand(s['r']['o'])
+                roots = _mapping_roots(m, e, 'generated_line', mp)
+                if not roots or not any(x[0] == 'bin' for x in walk(e)):
+                    continue
+                ok = _original_some_edge(m, pt, roots, mp)
                 r.site('%s: line cursor advanced from a segment only when that segment is mapped' % m.path, s['s'], 'ok' if ok else 'violation')
                 if not ok:
                     r.violation('%s:cursor' % b.path, s['s'], m.path,
@@ -860,8 +941,11 @@ def rule_namecheck(ctx):
                 if not (s['k'] == 'assign' and s['r']['k'] == 'agg' and s['r'].get('path') == ol):
                     continue
                 ops = dict(zip(s['r']['fields'], s['r']['ops']))
-                ol_origin = org.origin(m.expr_of_operand(ops['original_line']))
-                if ol_origin & {'LOCAL', 'LOCAL?'}:
+                ole = m.expr_of_operand(ops['original_line'])
+                from_mapping_param = any(
+                    x[0] == 'arg' and x[1] == 3 and f.body(x[3]) is not None and closure_kind(f.body(x[3])) == 'chunk'
+                    for x in value_walk(ole))
+                if from_mapping_param or (org.origin(ole) & {'LOCAL', 'LOCAL?'}):
                     continue  # pass-through location: its line is the outer mapping's own
                 ne = m.expr_of_operand(ops['name_index'])
                 lookups = [x for x in walk(ne) if x[0] == 'call' and x[1].rsplit('::', 1)[-1] == 'get' and x[2]
